@@ -90,7 +90,7 @@ impl World {
             NativeScript::new_script_all(&ScriptAll::new(&subs))
         }];
         let plutus = vec![PlutusScript::new(vec![1, 2, 3]), PlutusScript::new_v2(vec![4; 10]), PlutusScript::new_v3(vec![4; 10])]; // 1 and 2: the same bytes under two languages are two scripts
-        let policies = vec![native[0].hash(), plutus[1].hash(), sh(2)];
+        let policies = vec![native[0].hash(), plutus[1].hash(), sh(2), plutus[0].hash()];
         let names = vec![AssetName::new(vec![]).unwrap(), AssetName::new(b"t".to_vec()).unwrap(), AssetName::new(vec![0x42; 32]).unwrap()];
         let mut w = World {
             native,
@@ -316,6 +316,21 @@ fn plutus_witness(w: &World, p: usize, variant: u8, tag: RedeemerTag, marker: u6
     }
 }
 
+/// proposals 3 and 4: treasury withdrawal / parameter change naming script 0 as their policy
+pub fn guarded_proposal(w: &World, i: usize) -> VotingProposal {
+    let policy = w.plutus[0].hash();
+    let action = if i == 3 {
+        let mut tw = TreasuryWithdrawals::new();
+        tw.insert(&reward_key(1), &bn(1000));
+        GovernanceAction::new_treasury_withdrawals_action(&TreasuryWithdrawalsAction::new_with_policy_hash(&tw, &policy))
+    } else {
+        let mut ppu = ProtocolParamUpdate::new();
+        ppu.set_max_tx_size(20_000);
+        GovernanceAction::new_parameter_change_action(&ParameterChangeAction::new_with_policy_hash(&ppu, &policy))
+    };
+    VotingProposal::new(&action, &anchor(), &reward_key(i % 4), &bn(1_000_000 + i as u64))
+}
+
 /// Apply one operation to the real sub-builders and to the model; false = not applicable here.
 pub fn apply(w: &World, st: &mut St, op: Op) -> bool {
     match op {
@@ -416,6 +431,8 @@ pub fn apply(w: &World, st: &mut St, op: Op) -> bool {
             let r = match i {
                 // a withdrawal of nothing still needs the account's signature
                 4 => st.wds.add(&reward_key(3), &bn(0)),
+                // a second Plutus-script account (script 0)
+                5 => st.wds.add_with_plutus_witness(&RewardAddress::new(1, &Credential::from_scripthash(&w.plutus[0].hash())), &bn(1_700_000), &plutus_witness(w, 0, 0, RedeemerTag::new_reward(), 300 + i as u64, None)),
                 0 => st.wds.add(&reward_key(0), &bn(WD_AMOUNT[0])),
                 1 => st.wds.add_with_native_script(&RewardAddress::new(1, &Credential::from_scripthash(&w.native[0].hash())), &bn(WD_AMOUNT[1]), &NativeScriptSource::new(&w.native[0])),
                 2 => st.wds.add(&reward_key(2), &bn(WD_AMOUNT[2])),
@@ -436,6 +453,12 @@ pub fn apply(w: &World, st: &mut St, op: Op) -> bool {
                     let red = redeemer_for(RedeemerTag::new_mint(), 400);
                     let mw = MintWitness::new_plutus_script(&PlutusScriptSource::new(&w.plutus[1]), &red);
                     (st.mint.add_asset(&mw, &w.names[0], &Int::new_i32(1)), vec![((1, 0), 1)])
+                }
+                4 => {
+                    // a second Plutus policy (script 0)
+                    let red = redeemer_for(RedeemerTag::new_mint(), 401);
+                    let mw = MintWitness::new_plutus_script(&PlutusScriptSource::new(&w.plutus[0]), &red);
+                    (st.mint.add_asset(&mw, &w.names[0], &Int::new_i32(2)), vec![((3, 0), 2)])
                 }
                 _ => {
                     let a = st.mint.add_asset(&native, &w.names[0], &Int::new_i32(5));
@@ -459,7 +482,13 @@ pub fn apply(w: &World, st: &mut St, op: Op) -> bool {
             if st.m.proposals.contains(&i) {
                 return false;
             }
-            if st.props.add(&proposal(i, 1_000_000 + i as u64)).is_err() {
+            let r = if i >= 3 {
+                // proposals guarded by a Plutus policy script (script 0): proposing redeemers
+                st.props.add_with_plutus_witness(&guarded_proposal(w, i), &plutus_witness(w, 0, 0, RedeemerTag::new_voting_proposal(), 600 + i as u64, None))
+            } else {
+                st.props.add(&proposal(i, 1_000_000 + i as u64))
+            };
+            if r.is_err() {
                 return false;
             }
             st.m.proposals.push(i);
@@ -514,6 +543,7 @@ pub fn apply(w: &World, st: &mut St, op: Op) -> bool {
                 1 => st.votes.add(&Voter::new_constitutional_committee_hot_credential(&cred_key(1)), &aid, &vp),
                 2 => st.votes.add(&Voter::new_stake_pool_key_hash(&kh(2)), &aid, &vp),
                 3 => st.votes.add_with_native_script(&Voter::new_constitutional_committee_hot_credential(&Credential::from_scripthash(&w.native[0].hash())), &aid, &vp, &NativeScriptSource::new(&w.native[0])),
+                5 => st.votes.add_with_plutus_witness(&Voter::new_constitutional_committee_hot_credential(&Credential::from_scripthash(&w.plutus[0].hash())), &aid, &vp, &plutus_witness(w, 0, 0, RedeemerTag::new_vote(), 500 + i as u64, None)),
                 _ => st.votes.add_with_plutus_witness(&Voter::new_drep_credential(&Credential::from_scripthash(&w.plutus[2].hash())), &aid, &vp, &plutus_witness(w, 2, 0, RedeemerTag::new_vote(), 500 + i as u64, None)),
             };
             if r.is_err() {
@@ -673,9 +703,12 @@ pub fn fee_request_value(i: usize) -> (bool, u64) {
 
 pub fn has_plutus(w: &World, st: &St) -> bool {
     st.m.inputs.iter().any(|(i, _)| matches!(w.utxos[*i].0.owner, Owner::Plutus(_)))
-        || st.m.mint.keys().any(|k| k.0 == 1)
+        || st.m.mint.keys().any(|k| k.0 == 1 || k.0 == 3)
         || st.m.wds.contains(&3)
+        || st.m.wds.contains(&5)
         || st.m.votes.contains(&4)
+        || st.m.votes.contains(&5)
+        || st.m.proposals.iter().any(|i| *i >= 3)
         || st.m.certs.iter().any(|k| w.certs[*k].script == Some(2))
 }
 
@@ -871,7 +904,8 @@ pub fn ops_for(prop: &str) -> Vec<Op> {
         ],
         "C09" | "C10" => vec![
             Op::In(0, 0), Op::In(7, 0), Op::In(7, 1), Op::In(8, 0), Op::In(11, 0), Op::In(6, 0), Op::In(2, 0), Op::In(14, 0), Op::In(15, 0), Op::In(15, 1),
-            Op::Mint(0), Op::Mint(2), Op::Cert(25), Op::Cert(5), Op::Cert(26), Op::Cert(16), Op::Wd(0), Op::Wd(1), Op::Wd(3), Op::Vote(1), Op::Vote(3), Op::Vote(4),
+            Op::Mint(0), Op::Mint(2), Op::Mint(4), Op::Cert(25), Op::Cert(5), Op::Cert(26), Op::Cert(16), Op::Wd(0), Op::Wd(1), Op::Wd(3), Op::Wd(5), Op::Vote(1), Op::Vote(3), Op::Vote(4), Op::Vote(5),
+            Op::Proposal(0), Op::Proposal(3), Op::Proposal(4),
             Op::ExtraDatum(0), Op::ExtraDatum(1), Op::ExtraDatum(3), Op::Meta, Op::Out(0),
         ],
         _ => vec![],
